@@ -208,7 +208,7 @@ def handle (line : String) : String :=
     | none => "bad-op"
   | ["likely", h] =>
     match unhx h with
-    | some b => boolStr (isLikelyQuic b)
+    | some b => "- # " ++ boolStr (isLikelyQuic b)
     | none => "bad-op"
   | ["udp", orc, dgs] =>
     -- datagram tokens; `C` = CompactPacketState between two datagrams
